@@ -265,6 +265,8 @@ func exec(t []string) string {
 		return srvMsg(t[1], atoi(t[2]), atoi(t[3]), atoi(t[4]))
 	case t[0] == "f.new" && len(t) == 1:
 		return fNew()
+	case t[0] == "f.new" && len(t) == 2 && t[1] == "quic":
+		return fNewQUIC()
 	case t[0] == "f.fetch":
 		return fFetch(t[1:])
 	case t[0] == "f.store" && len(t) == 2:
